@@ -148,6 +148,17 @@ CHECKS = {
         "rule": "rapid-generated histories (<=~35 ops) against a real server process (verif-child = the DoServe initialisation on a Badger store + file log + JSON mutation log): keyvalue writes, commit/newversion/branch/merge, notes and logs, labelmap ingest/mutate/merge/cleave/split-supervoxel/renumber, annotation posts/deletes/moves with synced labelmap and labelsz, neuronjson posts (partial, replace, null) and deletes over mixed-digit body ids, roi posts, instance creation/deletion, with restart(clean = server.Shutdown) and restart(abrupt = SIGKILL while idle) pseudo-ops at generated positions (every history ends restart, 1-4 ops, restart). At each restart: deep settle, full observable snapshot (repos/info minus the mutation-id counters, DAG, notes, logs, commit flags, branch resolution, instance settings and syncs, every read endpoint of every instance at every version), snapshot again (to drop observables unstable without a restart), restart, snapshot, compare. Non-trivial: >=1 op whose effect lives in rebuilt state before a restart and >=2 restarts. Distinct = hash of the op list.",
         "assumptions": ["only MutationID/SavedMutationID of repo info may differ (documented to jump forward); /api/server statistics are not read", "abrupt exit = SIGKILL of the idle process with the OS surviving"],
     },
+    "C12": {
+        "pkg": "c12",
+        "level": "exploration",
+        "tools": ["verif-child"],
+        "tests": [
+            T("TestC12Restart", (10, 8), (150, 16)),
+        ],
+        "required_classes": ["restart/clean", "restart/abrupt", "restart/crash", "restart-near-mutation-id-stride", "concurrent-allocations", "ingest-of-larger-labels", "renumber-to-caller-chosen-label"],
+        "rule": "rapid-generated histories against a real server process: segments of N allocation requests (N steered to the mutation-id persistence stride: 0,1,2,3,7,98..102,199..201; mixes of merge / cleave / POST nextlabel/k / newversion / new instance / new repo), optional ingest of a larger label before them, optional burst of 2-8 concurrent allocation requests, optional administrator set-nextlabel (then only uniqueness is asserted), each segment ending in restart(clean) / restart(abrupt SIGKILL) / crash armed at the k-th store write of the last allocation request / nothing; the history ends restart + allocations. Oracles: mutation ids from responses strictly increase in issue order and never repeat (concurrent ones: never repeat, later ones exceed them); allocated labels strictly increase, never repeat, and exceed every label stored in any version (re-read from the volumes after a crash); version, repo and instance ids read from the identifier maps never name two things over the whole history and stay below their counters. Non-trivial: allocations on both sides of a restart/crash, or concurrent allocations. Distinct = hash of the case.",
+        "assumptions": ["crash = SIGKILL inside the process at a store write point (OS survives)", "after set-nextlabel only uniqueness of labels is asserted (documented administrator exception)"],
+    },
 }
 
 
